@@ -141,6 +141,10 @@ def harmonic_extension(L, free, fixed, xB):
     cond = float(np.linalg.cond(LII))
     if not np.isfinite(cond) or cond > 1e12:
         return None, cond
+    # singular without being ill-conditioned: the whole free block vanishes against the operator (cotangent weights of a
+    # non-Delaunay lattice triangulation that cancel exactly leave entries of 1e-16)
+    if float(np.linalg.svd(LII, compute_uv=False)[-1]) < 1e-8 * float(np.abs(L).max()):
+        return None, math.inf
     x = np.linalg.solve(LII, -LIB @ np.asarray(xB, dtype=complex))
     return x, cond
 
@@ -319,3 +323,121 @@ def integer_planar(pts):
             return None
         out.append((int(q[0]), int(q[1])))
     return out
+
+
+# ------------------------------------------------------------------------------------------ commensurable planar polygons
+# Planar polygons (z = 0) whose border angles are exact multiples of pi/m, given in LATTICE coordinates: a point is an
+# integer pair (a, b) meaning a + b*w with w = exp(i*pi/m) for m = 2 (Gaussian integers, w = i) and m = 3 (Eisenstein
+# integers, w = exp(i*pi/3)), so orientation predicates and the angle predicate below are integer arithmetic; for m = 5
+# (no planar lattice) the border is a closed turtle path of unit steps in the directions k*pi/5 (zonogon: closed exactly
+# in exact arithmetic, to round-off in floating point), the corner angles are integer arithmetic on the direction
+# indices, and the interior points are in general position (margin asserted).  Layout: (m, border ccw, interior).
+# A vertex-based field of order n snaps the chart of a border vertex to the nearest multiple of 2*pi/n: where the border
+# angle IS a positive multiple of 2*pi/n nothing is snapped and the connection of the planar domain is flat.
+COMM_SETS = {
+    # m = 2: rectangle / L / rectangle with mid-side vertices (90, 180, 270 degrees: order 4; 180 alone: order 2)
+    "c2:rect+1": (2, [(0, 0), (6, 0), (6, 4), (0, 4)], [(2, 1)]),
+    "c2:rect+2": (2, [(0, 0), (6, 0), (6, 4), (0, 4)], [(2, 1), (4, 3)]),
+    "c2:ell+1": (2, [(0, 0), (7, 0), (7, 3), (3, 3), (3, 5), (0, 5)], [(1, 4)]),
+    "c2:rectm+1": (2, [(0, 0), (3, 0), (6, 0), (6, 4), (2, 4), (0, 4)], [(2, 1)]),
+    # m = 3 (Eisenstein coordinates): hexagon (120 x 6: orders 3, 6), rhombus and trapezoid (60 / 120: order 6),
+    # equilateral triangle with mid-side vertices (60, 180: order 6)
+    "c3:hex+1": (3, [(2, 0), (0, 2), (-2, 2), (-2, 0), (0, -2), (2, -2)], [(0, 1)]),
+    "c3:hex+2": (3, [(3, 0), (0, 3), (-3, 3), (-3, 0), (0, -3), (3, -3)], [(1, 1), (-2, 0)]),
+    "c3:rhomb+1": (3, [(0, 0), (4, 0), (4, 3), (0, 3)], [(2, 1)]),
+    "c3:trap+1": (3, [(0, 0), (5, 0), (3, 2), (0, 2)], [(2, 1)]),
+    "c3:trim+1": (3, [(0, 0), (2, 0), (4, 0), (2, 2), (0, 4), (0, 2)], [(1, 1)]),
+    # m = 5 (turtle: (direction index k -> unit step exp(i*k*pi/5), number of unit steps), one border vertex per entry):
+    # hexagon with the angles 144, 144, 72, 144, 144, 72 degrees (multiples of 72: order 5)
+    "c5:zono+2": (5, [(0, 2), (1, 2), (2, 2), (5, 2), (6, 2), (7, 2)], [(0.9, 1.3), (1.7, 2.6)]),
+}
+
+
+def _lat_mul(m, x, y):
+    """product in Z[w], w = exp(i*pi/m): m = 2: w^2 = -1, m = 3: w^2 = w - 1"""
+    a, b = x
+    c, d = y
+    if m == 2:
+        return (a * c - b * d, a * d + b * c)
+    return (a * c - b * d, a * d + b * c + b * d)
+
+
+def _lat_conj(m, x):
+    a, b = x
+    return (a, -b) if m == 2 else (a + b, -b)
+
+
+def comm_points(name):
+    """-> (points as floats (x, y), points for the orientation predicates (integers for m = 2, 3), number of border points)"""
+    m, border, interior = COMM_SETS[name]
+    if m in (2, 3):
+        lat = list(border) + list(interior)
+        wx, wy = (0.0, 1.0) if m == 2 else (0.5, math.sqrt(3.0) / 2.0)
+        return [(a + b * wx, b * wy) for a, b in lat], lat, len(border)
+    x, y, pts = 0.0, 0.0, []
+    for k, steps in border:
+        pts.append((x, y))
+        x += steps * math.cos(k * math.pi / m)
+        y += steps * math.sin(k * math.pi / m)
+    assert abs(x) < 1e-12 and abs(y) < 1e-12, "turtle path is not closed"
+    pts += [tuple(map(float, p)) for p in interior]
+    for t in itertools.combinations(range(len(pts)), 3):
+        assert abs(orient2d(*(pts[v] for v in t))) > 1e-6, ("not in general position", name, t)
+    return pts, pts, len(border)
+
+
+def comm_border_angle_is_multiple(name, v, order):
+    """EXACT: the interior angle of the polygon at its border vertex v is a positive multiple of 2*pi/order"""
+    m, border, _ = COMM_SETS[name]
+    nb = len(border)
+    if m in (2, 3):
+        p, q, r = border[(v - 1) % nb], border[v], border[(v + 1) % nb]
+        e_in, e_out = (q[0] - p[0], q[1] - p[1]), (r[0] - q[0], r[1] - q[1])
+        z = _lat_mul(m, e_out, _lat_conj(m, e_in))          # argument = turning angle
+        zc = _lat_conj(m, z)
+        x = (-zc[0], -zc[1])                                  # argument = pi - turning = interior angle
+        acc = (1, 0)
+        for _ in range(order):
+            acc = _lat_mul(m, acc, x)
+        return acc[1] == 0 and acc[0] > 0
+    dk = (border[v][0] - border[(v - 1) % nb][0]) % (2 * m)
+    if dk >= m:
+        dk -= 2 * m                                           # turning angle = dk * pi/m in (-pi, pi)
+    return ((m - dk) * order) % (2 * m) == 0                  # interior angle (m - dk) * pi/m is a multiple of 2*pi/order
+
+
+def comm_start_triangulation(name):
+    pts, opts, nb = comm_points(name)
+    tri = polygon_start_triangulation(opts[:nb], nb)
+    for p in range(nb, len(opts)):
+        P = opts[p]
+        for i, t in enumerate(tri):
+            o = [orient2d(opts[t[k]], opts[t[(k + 1) % 3]], P) for k in range(3)]
+            if min(o) > 0:                                   # strictly inside: 1 -> 3
+                tri[i:i + 1] = [(t[0], t[1], p), (t[1], t[2], p), (t[2], t[0], p)]
+                break
+            if min(o) == 0 and sorted(o)[1] > 0:             # on the open edge t[k] t[k+1]: split the two faces of that edge
+                k = o.index(0)
+                a, b, c = t[k], t[(k + 1) % 3], t[(k + 2) % 3]
+                j, t2 = [(j, u) for j, u in enumerate(tri) if j != i and a in u and b in u][0]
+                d = [v for v in t2 if v not in (a, b)][0]
+                tri = [u for h, u in enumerate(tri) if h not in (i, j)] + [(a, p, c), (p, b, c), (b, p, d), (p, a, d)]
+                break
+        else:
+            raise ValueError("point %d is not inside the polygon" % p)
+    area2 = sum(opts[i][0] * opts[(i + 1) % nb][1] - opts[(i + 1) % nb][0] * opts[i][1] for i in range(nb))
+    areas = [orient2d(*(opts[v] for v in t)) for t in tri]
+    assert all(a > 0 for a in areas) and abs(sum(areas) - area2) <= 1e-9 * abs(area2), name
+    return tri
+
+
+def gaussian_border_angle_is_multiple(ipts, prv, v, nxt, order):
+    """the same exact predicate for planar integer points (Gaussian integers): inputs of the other planar families"""
+    e_in = (ipts[v][0] - ipts[prv][0], ipts[v][1] - ipts[prv][1])
+    e_out = (ipts[nxt][0] - ipts[v][0], ipts[nxt][1] - ipts[v][1])
+    z = _lat_mul(2, e_out, _lat_conj(2, e_in))
+    x = (-z[0], z[1])                                         # -conj(z)
+    acc = (1, 0)
+    for _ in range(order):
+        acc = _lat_mul(2, acc, x)
+    return acc[1] == 0 and acc[0] > 0
